@@ -24,6 +24,11 @@ RULE = ('layers: registered default, main file, d1/{10.yaml, 9.yaml, B.yaml, '
         'list-of-lists, null, booleans, numbers, YAML-sensitive words) as '
         'JSON, block YAML and flow YAML must decide identically.  '
         'non-trivial = name defined in >=2 layers (pick/spelling: any row).')
+RULE += (
+         ' Plus `filenames`: all pairs (thorough: and triples) of 22'
+         ' awkward file names (stem a prefix of another stem, several dots,'
+         ' case, blanks, backup suffixes) in one directory; the last in'
+         ' plain string order must win.')
 ASSUMPTIONS = ['real tmpfs directory; files created in reverse lexical order; '
                'raw os.listdir order recorded in evidence',
                'opts._options default restored and asserted after each row']
@@ -75,6 +80,9 @@ def plan(tier, seed):
     for how in HOWS:
         jobs.append({'space': 'pick', 'how': how, 'tier': tier, 'weight': 60})
     jobs.append({'space': 'scope', 'tier': tier, 'weight': 5})
+    for i in range(8):
+        jobs.append({'space': 'filenames', 'tier': tier, 'shard': i, 'of': 8,
+                     'weight': 30 if tier == 'quick' else 300})
     jobs.append({'space': 'spelling', 'tier': tier, 'weight': 40})
     return jobs
 
@@ -153,6 +161,8 @@ def run(job, seed):
         return run_scope(acc, P)
     if job['space'] == 'spelling':
         return run_spelling(acc, P)
+    if job['space'] == 'filenames':
+        return run_filenames(acc, P, job)
     listdir_seen = None
     for idx in range(job['lo'], job['hi']):
         if job['space'] == 'one':
@@ -226,6 +236,62 @@ def _lname(i):
     if isinstance(i, int):
         return LAYERS[i][2] or 'default'
     return str(i)
+
+
+# ---- file names that sort awkwardly ---------------------------------------------
+
+FILENAMES = ['50-base.yaml', '50-base-extra.json', 'policy.yaml',
+             'policy.local.yaml', '00.yaml', '00 site.yaml', 'a.json',
+             'a.yaml', 'A.yaml', 'a_b.yaml', 'a-b.yaml', 'a.b.yaml',
+             'ab.yaml', '1.yaml', '01.yaml', '\u00e9.yaml', 'a.yaml.json',
+             'a', 'Z.json', '_.yaml', '~a.yaml', 'a.yaml~']
+
+
+def run_filenames(acc, P, job):
+    """Inside one directory the last file in plain lexicographic order of the
+    complete file NAME wins: every pair (thorough: every triple too) of names
+    from a menu in which stems are prefixes of one another, names have
+    several dots, differ in case or hold characters on both sides of '.'."""
+    combos = list(itertools.combinations(range(len(FILENAMES)), 2))
+    if job['tier'] == 'thorough':
+        combos += list(itertools.combinations(range(len(FILENAMES)), 3))
+    for combo in core.shard_iter(combos, job['shard'], job['of']):
+        names = [FILENAMES[i] for i in combo]
+        exp = sorted(names)[-1]
+        for absolute in (False, True):
+            w = world.FileWorld()
+            try:
+                w.mkdir('d1')
+                for n in sorted(names, reverse=absolute):
+                    body = {'svc:get': 'role:F%d' % FILENAMES.index(n)}
+                    w.write('d1/' + n, json.dumps(body))
+                dirs = [w.path('d1')] if absolute else ['d1']
+                enf = P.Enforcer(world.new_conf(w.root, policy_dirs=dirs))
+                enf.load_rules()
+                hits = []
+                for n in names:
+                    acc.ev()
+                    r = world.decide(enf, 'svc:get', {}, {
+                        'roles': ['F%d' % FILENAMES.index(n)]})
+                    if r != ('ok', False):
+                        hits.append(n if r == ('ok', True) else r[1])
+                acc.case('filenames', True)
+                if hits != [exp]:
+                    acc.violation(
+                        'filenames|%s' % ('wrong-winner' if len(hits) == 1
+                                          else 'hits=%d' % len(hits)),
+                        'directory holding %r: the definition in effect is '
+                        'that of %r, lexicographic order says %r' %
+                        (names, hits, exp),
+                        {'names': names, 'absolute_dirs': absolute}, exp,
+                        hits, 'filenames')
+                acc.outcome('filenames-last=%s' % ('first-written' if
+                                                   exp == names[0] else
+                                                   'later-written'))
+            finally:
+                w.destroy()
+    acc.sample('filenames', {'names': FILENAMES[:4]})
+    return acc.result()
 
 
 # ---- which file is the policy file -------------------------------------------------
